@@ -2,6 +2,7 @@
 back exactly the records handed to the segmenter (synthetic records, and the lr-tap bodies of real writes)."""
 import phys
 
+EXTRA_COQ_FILES = ('GenFacts/ConstantsOK.v',)
 RULE = ('same streams as C01 (S1 exhaustive (capacity, length) window, S2 synthetic record lists with position-dependent '
         'bytes, S3 real writes with the lr-tap); judged by reassembly: records read back == records given (empty bodies '
         'produce no record). Distinct by (capacity/record length, body lengths).')
